@@ -38,7 +38,12 @@ Definition E_SOURCE : N := 4.
 Definition E_CONFIG : N := 5.
 Definition E_PARSE  : N := 6.
 
-Definition pow2 (n : N) : N := N.pow 2 n.
+(* 2^n computed by shifting (fast when extracted); Proofs/SinkArith.v: P2 n = 2 ^ n *)
+Definition P2 (n : N) : N := N.shiftl 1 n.
+Definition ZP2 (n : Z) : Z := Z.shiftl 1 n.
+(* x / 2^k and x mod 2^k by shifting/masking (Proofs/SinkArith.v: DIV2_eq, MOD2_eq) *)
+Definition DIV2 (x k : N) : N := N.shiftr x k.
+Definition MOD2 (x k : N) : N := N.land x (N.ones k).
 
 (* machine wraps *)
 Definition wrapu (w : N) (z : Z) : Z := Z.modulo z (Z.pow 2 (Z.of_N w)).
@@ -46,7 +51,10 @@ Definition wraps (w : N) (z : Z) : Z :=
   let m := Z.pow 2 (Z.of_N w) in
   let h := Z.pow 2 (Z.of_N w - 1) in
   Z.modulo (z + h) m - h.
-Definition wrap32s := wraps 32.
+(* i32 wrap with a fast path for values already in range (equal to wraps 32; Proofs/PredictP.v) *)
+Definition wrap32s (z : Z) : Z :=
+  if (Z.leb (-2147483648) z && Z.ltb z 2147483648)%bool then z
+  else Z.modulo (z + 2147483648) 4294967296 - 2147483648.
 Definition wrap32u (z : Z) : N := Z.to_N (wrapu 32 z).
 
 Fixpoint mapM {A B} (f : A -> Res B) (l : list A) : Res (list B) :=
